@@ -1,4 +1,6 @@
 import BoltonsVerif.C16.Proofs
+import BoltonsVerif.C16.Regex
+import BoltonsVerif.C16.Extra
 /-
 C16 — property theorems (statements, short derivations from Proofs.lean, non-vacuity examples).
 
@@ -21,9 +23,9 @@ Clause 2.  "TracebackInfo/ExceptionInfo ... list the same frames in the same ord
 file, line, function and source text as the standard traceback module, and their formatted output
 equals the interpreter's (position-marker lines aside)."
 
-  The formatting algorithms are proved for every list of entries.  FULL statement
-  `eiFormat frames t m ++ "\n" = stdFormat frames t m` is false for runs of more than 3 identical
-  entries (`format_eq_std_false`); `format_eq_std_partial` assumes `NoLongRun`.
+  The formatting algorithms are proved equal to the interpreter's for every list of entries (`format_eq_std`,
+  `print_exception_eq_std`, `tbinfo_format_eq`) - since fix 7fb4f9f also for runs of more than 3 identical entries
+  (recursion), which are collapsed into `[Previous line repeated N more times]`.
   The frame walk is modelled from what the interpreter hands over per traceback entry (`TbEntry`: file,
   line number, function, the identity of the frame object, and what linecache can see of the file: cache
   entry, file on disk, loader): TracebackInfo.from_traceback lists every entry whatever frame it refers to,
@@ -44,6 +46,60 @@ theorem source_regexes_agree :
                           "digit+".toList] ∧
     Gen.underlineReShape = ["^".toList, "set*: ^~".toList, "$".toList] := by decide
 
+/-! ## the source's patterns, run by a generic backtracking matcher, are the scanners of the model
+
+`Re.reMatch` (Regex.lean) is a matcher for the fragment of `re` syntax the three patterns use (`^`, `$`, literals,
+greedy `X+` / `X*` over `.`, `\d`, `[...]`; longest run first, characters given back one by one), independent of
+these particular patterns.  The token lists are regenerated from the source on every run. -/
+
+/-- the regenerated token lists parse to the three patterns the theorems below speak about -/
+theorem source_patterns_parse :
+    Re.parseToks Gen.frameReShape = some Re.frameToks ∧ Re.parseToks Gen.seFrameReShape = some Re.seToks ∧
+    Re.parseToks Gen.underlineReShape = some Re.ulToks := by decide +kernel
+
+/-- `_frame_re.match(line).groupdict()`, computed by the generic matcher on the source's pattern, is what the
+    hand scanner `matchFrame` computes (rightmost `", line N, in f"` split, non-empty path), for every line -/
+theorem frame_scanner_is_source_regex (ft : List Re.Tok) (h : Re.parseToks Gen.frameReShape = some ft)
+    (l : Str) (hn : Re.noNL l = true) : matchFrame l = (Re.reMatch ft l).bind Re.frameOfGroups := by
+  have := source_patterns_parse.1
+  rw [h] at this
+  rw [Option.some.inj this]
+  exact Re.matchFrame_eq_re l hn
+
+/-- the same for the SyntaxError form `_se_frame_re` -/
+theorem se_scanner_is_source_regex (st : List Re.Tok) (h : Re.parseToks Gen.seFrameReShape = some st)
+    (l : Str) (hn : Re.noNL l = true) : matchSE l = (Re.reMatch st l).bind Re.seFrameOfGroups := by
+  have := source_patterns_parse.2.1
+  rw [h] at this
+  rw [Option.some.inj this]
+  exact Re.matchSE_eq_re l hn
+
+/-- `_underline_re.match(line)` succeeds exactly on the lines `isUnderline` accepts -/
+theorem underline_scanner_is_source_regex (ut : List Re.Tok) (h : Re.parseToks Gen.underlineReShape = some ut)
+    (l : Str) (hn : Re.noNL l = true) : isUnderline l = (Re.reMatch ut l).isSome := by
+  have := source_patterns_parse.2.2
+  rw [h] at this
+  rw [Option.some.inj this]
+  exact Re.isUnderline_eq_re l hn
+
+/-- ParsedException.from_string with its three `.match` calls evaluated by the generic matcher on the source's
+    patterns is the model `fromStringF` the clause-1 theorems are about - for every text (the lines it matches come
+    out of str.splitlines and strip(), so they contain no `\n`) -/
+theorem from_string_is_source_regexes (ft st ut : List Re.Tok)
+    (h1 : Re.parseToks Gen.frameReShape = some ft) (h2 : Re.parseToks Gen.seFrameReShape = some st)
+    (h3 : Re.parseToks Gen.underlineReShape = some ut) (t : Str) :
+    Re.fromStringRe ft st ut t = fromStringF t := by
+  obtain ⟨p1, p2, p3⟩ := source_patterns_parse
+  rw [h1] at p1; rw [h2] at p2; rw [h3] at p3
+  rw [Option.some.inj p1, Option.some.inj p2, Option.some.inj p3]
+  exact Re.fromStringRe_eq t
+
+example : Re.reMatch Re.frameToks "File \"/x \", line 5, in g/é.py\", line 12, in <lambda>".toList
+    = some ["/x \", line 5, in g/é.py".toList, "12".toList, "<lambda>".toList] := by decide +kernel
+example : Re.reMatch Re.frameToks "File \"a\", line 12, in ".toList = none := by decide +kernel
+example : Re.reMatch Re.seToks "File \"a\", line 12x".toList = some ["a".toList, "12".toList] := by decide +kernel
+example : Re.reMatch Re.ulToks "  ~~^^ ".toList = some [] ∧ Re.reMatch Re.ulToks " ~x".toList = none := by decide +kernel
+
 /-! ## clause 1 -/
 
 /-- from_string recovers every field from a standard-format text, marker lines or not -/
@@ -51,6 +107,16 @@ theorem parse_render_markers (fas : List (Frame × Option Str)) (etype msg : Str
     (h : WFtextA fas etype msg = true) :
     fromString (toStringA fas etype msg) = .ok ⟨fas.map (·.1), etype, msg⟩ := by
   unfold fromString; rw [fromStringF_rendered fas etype msg h]; rfl
+
+/-- the same statement about from_string run on the source's own patterns (generic matcher), not on the hand
+    scanners: every field of a standard-format text is recovered -/
+theorem parse_render_markers_source_regexes (ft st ut : List Re.Tok)
+    (h1 : Re.parseToks Gen.frameReShape = some ft) (h2 : Re.parseToks Gen.seFrameReShape = some st)
+    (h3 : Re.parseToks Gen.underlineReShape = some ut)
+    (fas : List (Frame × Option Str)) (etype msg : Str) (h : WFtextA fas etype msg = true) :
+    (Re.fromStringRe ft st ut (toStringA fas etype msg)).map (·.2) = .ok ⟨fas.map (·.1), etype, msg⟩ := by
+  rw [from_string_is_source_regexes ft st ut h1 h2 h3]
+  exact parse_render_markers fas etype msg h
 
 /-- ... also when the text carries the interpreter's final newline -/
 theorem parse_render_final_newline (fas : List (Frame × Option Str)) (etype msg : Str)
@@ -156,12 +222,61 @@ theorem parse_render_false_trailing_newline :
   rw [fromStringF_noframes (e1 := "E: a".toList) (E := []) (by decide +kernel) (by decide +kernel)]
   intro h; have := Except.ok.inj h; revert this; decide +kernel
 
+/-- ... and that is all that is lost there: for a non-empty message, a final newline of the message is dropped and
+    every other field is recovered (the exact extent of known finding C16-message-trailing-newline) -/
+theorem parse_render_trailing_newline_exact (pe : PE) (h : WFpe pe = true) (hm : pe.msg ≠ []) :
+    fromString (toString ⟨pe.frames, pe.etype, pe.msg ++ ['\n']⟩) = .ok pe := by
+  have key : toString ⟨pe.frames, pe.etype, pe.msg ++ ['\n']⟩ = toString pe ++ ['\n'] := by
+    have hj : ∀ (ls : List Str) (l : Str), joinNL (ls ++ [l ++ ['\n']]) = joinNL (ls ++ [l]) ++ ['\n'] := by
+      intro ls l
+      induction ls with
+      | nil => simp [joinNL]
+      | cons a as ih =>
+        cases as with
+        | nil => simp [joinNL]
+        | cons b bs =>
+          simp only [List.cons_append, joinNL] at ih ⊢
+          rw [ih]; simp
+    have he : excLine pe.etype (pe.msg ++ ['\n']) = excLine pe.etype pe.msg ++ ['\n'] := by
+      simp [excLine, hm, List.append_assoc]
+    unfold toString toLines
+    simp only
+    rw [he]
+    have := hj (header :: pe.frames.flatMap frameLines) (excLine pe.etype pe.msg)
+    simpa using this
+  rw [key, toString_eq_toStringA, parse_render_final_newline _ _ _ (WFtextA_noAnchors pe h)]
+  cases pe
+  simp [noAnchors, Function.comp_def]
+
+example : WFpe ⟨exFrames.map (·.1), "E".toList, "a".toList⟩ = true ∧ "a".toList ≠ [] := by decide +kernel
+
+/-- the exact extent of known finding C16-trailer-line-in-message: when a (non-empty) message is followed by one
+    more message line of the form `Exception ... ignored`, from_string returns everything but that line -/
+theorem parse_render_trailer_exact (fas : List (Frame × Option Str)) (etype msg tl : Str)
+    (h : WFtextA fas etype msg = true) (hm : msg ≠ []) (ht : isTrailer tl = true) (hs : tl.all notSep = true) :
+    fromString (toStringA fas etype (msg ++ '\n' :: tl)) = .ok ⟨fas.map (·.1), etype, msg⟩ := by
+  unfold fromString; rw [fromStringF_rendered_trailer fas etype msg tl h hm ht hs]; rfl
+
+example : WFtextA exFrames "E".toList "x".toList = true ∧ isTrailer "Exception in thread ignored".toList = true ∧
+    "Exception in thread ignored".toList.all notSep = true := by decide +kernel
+
 /-- a message containing another str.splitlines separator is not recovered -/
 theorem parse_render_false_separator :
     ∃ pe : PE, pe.msg.getLast? ≠ some '\n' ∧ fromString (toString pe) ≠ .ok pe := by
   refine ⟨⟨[], "E".toList, "a\x0cb".toList⟩, by decide +kernel, ?_⟩
   rw [fromStringF_noframes (e1 := "E: a".toList) (E := ["b".toList]) (by decide +kernel) (by decide +kernel)]
   intro h; have := Except.ok.inj h; revert this; decide +kernel
+
+/-- the exact extent of known finding C16-exotic-line-separators (for the message): every other str.splitlines
+    separator in the message - `\r`, `\r\n`, `\x0b`, `\x0c`, `\x1c`-`\x1e`, `\x85`, U+2028, U+2029 - comes back as `\n`
+    (`normSeps`), and nothing else changes: frames, type and the rest of the message are recovered -/
+theorem parse_render_separator_exact (pe : PE) (hm : pe.msg ≠ [])
+    (h : WFpe ⟨pe.frames, pe.etype, normSeps pe.msg⟩ = true) :
+    fromString (toString pe) = .ok ⟨pe.frames, pe.etype, normSeps pe.msg⟩ := by
+  unfold fromString; rw [fromStringF_separators pe hm h]; rfl
+
+example : normSeps "a b\r\nc\x0cd: e\rf".toList = "a\nb\nc\nd: e\nf".toList ∧
+    WFpe ⟨exFrames.map (·.1), "E".toList, normSeps "a b\r\nc\x0cd: e\rf".toList⟩ = true := by decide +kernel
 
 /-- a message whose last line reads `Exception ... ignored` loses that line -/
 theorem parse_render_false_trailer :
@@ -180,33 +295,61 @@ theorem frames_eq_extract_tb (tb : List Callpoint) (limit : Option Nat) :
     function, same stripped source text, present under the same condition) -/
 theorem tb_frame_str_eq_std (c : Callpoint) : tbFrameStr c = stdFrameStr c := tbFrameStr_eq_std c
 
-/-- TracebackInfo.get_formatted, for every list of entries, is the header followed by the
-    interpreter's rendering of each entry -/
+/-- TracebackInfo.get_formatted, for every list of entries and every limit, is the header followed by what
+    traceback.format_tb prints - runs of more than 3 identical entries collapsed the same way -/
 theorem tbinfo_format_eq (tb : List Callpoint) (limit : Option Nat) :
-    tbInfoFormat (fromTraceback tb limit) = headerNL ++ (stdExtract tb limit).flatMap stdFrameStr := by
+    tbInfoFormat (fromTraceback tb limit) = headerNL ++ stdLoop none 0 (stdExtract tb limit) := by
   unfold tbInfoFormat
-  rw [frames_eq_extract_tb]
-  congr 1
-  induction stdExtract tb limit with
-  | nil => rfl
-  | cons c cs ih => simp [List.flatMap_cons, tbFrameStr_eq_std, ih]
+  rw [frames_eq_extract_tb, bLoop_eq_stdLoop]
 
-/- FULL: ∀ frames etype msg, eiFormat frames etype msg ++ ['\n'] = stdFormat frames etype msg
-   (false: format_eq_std_false).  Proved under the explicit decidable hypothesis `NoLongRun`. -/
-/-- ExceptionInfo.get_formatted equals the interpreter's text (its final newline aside) whenever no
-    more than 3 consecutive entries share file, line and function -/
-theorem format_eq_std_partial (frames : List Callpoint) (etype msg : Str) (h : NoLongRun frames = true) :
+/-- ExceptionInfo.get_formatted equals the interpreter's text (its final newline aside) for EVERY list of entries -
+    recursion included: since fix 7fb4f9f (r3-c16-work) runs of more than 3 identical entries are collapsed into
+    `[Previous line repeated N more times]` exactly as StackSummary.format does.  (Before the fix this held only
+    under `NoLongRun`: former `format_eq_std_partial` / `format_eq_std_false`.) -/
+theorem format_eq_std (frames : List Callpoint) (etype msg : Str) :
     eiFormat frames etype msg ++ ['\n'] = stdFormat frames etype msg := by
   unfold eiFormat stdFormat tbInfoFormat
-  rw [stdLoop_noLongRun none 0 frames (by omega) h, flatMap_tbFrameStr]
+  rw [bLoop_eq_stdLoop]
   unfold eiExcOnly stdExcOnly
   split <;> simp [List.append_assoc]
 
-/-- tbutils.print_exception writes exactly the interpreter's text under the same hypothesis -/
-theorem print_exception_eq_std_partial (frames : List Callpoint) (etype msg : Str) (h : NoLongRun frames = true) :
+def exCp (n : Nat) (f : String) (l : String) : Callpoint := ⟨"/a b/é.py".toList, n, f.toList, l.toList⟩
+
+/-- the collapse is really taken: 5 identical entries are printed as 3 entries and one `repeated 2 more times` line -/
+example : eiFormat (List.replicate 5 (exCp 2 "f" "    return f(n - 1)\n")) "RecursionError".toList "deep".toList
+    = ("Traceback (most recent call last):\n" ++
+       "  File \"/a b/é.py\", line 2, in f\n    return f(n - 1)\n" ++
+       "  File \"/a b/é.py\", line 2, in f\n    return f(n - 1)\n" ++
+       "  File \"/a b/é.py\", line 2, in f\n    return f(n - 1)\n" ++
+       "  [Previous line repeated 2 more times]\nRecursionError: deep").toList := by decide +kernel
+
+/-- while no run is longer than 3, every entry is printed on its own -/
+theorem format_eq_uncollapsed (frames : List Callpoint) (etype msg : Str) (h : NoLongRun frames = true) :
+    eiFormat frames etype msg ++ ['\n'] = headerNL ++ frames.flatMap stdFrameStr ++ stdExcOnly etype msg := by
+  rw [format_eq_std]
+  unfold stdFormat
+  rw [stdLoop_noLongRun none 0 frames (by omega) h]
+
+/-- the two halves of the property meet: from_string reads back what ExceptionInfo.get_formatted prints - every
+    entry's file, line number, function and stripped source text, the type and the message - and to_string()
+    reproduces that text exactly (no run longer than 3: a `[Previous line repeated ...]` line is not a frame,
+    from_string stops there - known finding C16-collapse-line-not-parsed) -/
+theorem parse_formatted (frames : List Callpoint) (etype msg : Str) (hr : NoLongRun frames = true)
+    (h : WFpe (peOf frames etype msg) = true) :
+    fromString (eiFormat frames etype msg) = .ok (peOf frames etype msg) ∧
+    (fromString (eiFormat frames etype msg)).map toString = .ok (eiFormat frames etype msg) := by
+  rw [eiFormat_eq_toString frames etype msg hr]
+  exact ⟨parse_render _ h, render_parse _ h⟩
+
+example : NoLongRun [exCp 1 "<module>" "f()\n", exCp 5 "f" "    return g(\"a: b\")  \n", exCp 9 "<lambda>" ""] = true ∧
+    WFpe (peOf [exCp 1 "<module>" "f()\n", exCp 5 "f" "    return g(\"a: b\")  \n", exCp 9 "<lambda>" ""]
+    "pkg.Err".toList "a: b\nc".toList) = true := by decide +kernel
+
+/-- tbutils.print_exception writes exactly the interpreter's text, for every list of entries -/
+theorem print_exception_eq_std (frames : List Callpoint) (etype msg : Str) :
     printException frames etype msg = stdFormat frames etype msg := by
   unfold printException stdFormat tbInfoFormat
-  rw [stdLoop_noLongRun none 0 frames (by omega) h, flatMap_tbFrameStr]
+  rw [bLoop_eq_stdLoop]
   unfold stdExcOnly
   split <;> simp [List.append_assoc]
 
@@ -215,16 +358,6 @@ theorem exc_only_eq_std (etype msg : Str) : eiExcOnly etype msg ++ ['\n'] = stdE
   unfold eiExcOnly stdExcOnly
   split <;> simp
 
-def exCp (n : Nat) (f : String) (l : String) : Callpoint := ⟨"/a b/é.py".toList, n, f.toList, l.toList⟩
-
-example : NoLongRun [exCp 1 "<module>" "f()\n", exCp 5 "f" "    return g()  \n", exCp 5 "f" "    return g()  \n",
-                     exCp 5 "f" "    return g()  \n", exCp 9 "<lambda>" ""] = true := by decide +kernel
-
-/-- the full statement is false: the interpreter collapses the 4th identical entry -/
-theorem format_eq_std_false :
-    ∃ frames etype msg, eiFormat frames etype msg ++ ['\n'] ≠ stdFormat frames etype msg := by
-  refine ⟨List.replicate 4 (exCp 2 "f" "f()\n"), "E".toList, [], ?_⟩
-  decide +kernel
 
 /-! ### the frame walk: every traceback entry, with the line the file holds now -/
 
@@ -292,6 +425,17 @@ theorem live_frames_eq_extract_tb (tb : List TbEntry) (limit : Option Nat) (sys 
     fromTraceback (tb.map walkB) (resolveLimit limit sys) = stdExtract (tb.map walkS) (resolveLimit limit sys) := by
   rw [map_walk_eq tb h]; rfl
 
+/-- `ExceptionInfo.to_dict()` lists, per entry, the file, line number and function of extract_tb's FrameSummary and
+    a `line` that is FrameSummary.line once stripped (to_dict keeps the indentation: rstrip only) -/
+theorem dict_frames_eq_extract_tb (tb : List TbEntry) (limit : Option Nat) (sys : Option Int)
+    (h : ∀ e ∈ tb, LookOK e.look = true) :
+    (dictFrames (fromTraceback (tb.map walkB) (resolveLimit limit sys))).map
+        (fun d => (d.1, d.2.1, d.2.2.1, strip d.2.2.2))
+      = (stdExtract (tb.map walkS) (resolveLimit limit sys)).map
+        (fun c => (c.path, c.lineno, c.func, strip c.line)) := by
+  rw [live_frames_eq_extract_tb tb limit sys h]
+  simp [dictFrames, List.map_map, Function.comp_def, strip_rstrip]
+
 /-- without a limit every traceback entry is listed, with its own file, line number and function -
     also entries that refer to a frame already listed -/
 theorem from_traceback_lists_every_entry (tb : List TbEntry) :
@@ -300,14 +444,71 @@ theorem from_traceback_lists_every_entry (tb : List TbEntry) :
   simp [fromTraceback, walkB, List.map_map, Function.comp_def]
 
 /-- ExceptionInfo.get_formatted of a live exception equals the interpreter's text: walk, line lookup and
-    layout together -/
+    layout together (partial only in the linecache state `LookOK` excludes) -/
 theorem live_format_eq_std_partial (tb : List TbEntry) (sys : Option Int) (etype msg : Str)
-    (h : ∀ e ∈ tb, LookOK e.look = true)
-    (hr : NoLongRun (stdExtract (tb.map walkS) (resolveLimit none sys)) = true) :
+    (h : ∀ e ∈ tb, LookOK e.look = true) :
     eiFormat (fromTraceback (tb.map walkB) (resolveLimit none sys)) etype msg ++ ['\n']
       = stdFormat (stdExtract (tb.map walkS) (resolveLimit none sys)) etype msg := by
   rw [live_frames_eq_extract_tb tb none sys h]
-  exact format_eq_std_partial _ etype msg hr
+  exact format_eq_std _ etype msg
+
+/-! ### the exception's display name; sessions of several captures -/
+
+/-- ExceptionInfo.from_exc_info / tbutils.format_exception_only name the exception class exactly as the
+    traceback module does, for every `__module__` (also one that is not a str) and `__qualname__` -/
+theorem type_str_eq_std (t : ExcType) : typeStr t = stdTypeStr t := by
+  obtain ⟨m, q⟩ := t
+  cases m with
+  | none => simp [typeStr, stdTypeStr]
+  | some m =>
+    by_cases h1 : m = "__main__".toList
+    · subst h1; simp [typeStr, stdTypeStr, plainMods]
+    · by_cases h2 : m = "builtins".toList
+      · subst h2; simp [typeStr, stdTypeStr, plainMods]
+      · simp [typeStr, stdTypeStr, plainMods, h1, h2]
+
+/-- `_some_str` shows the exception's `str()`, and the traceback module's placeholder when `str()` raises -/
+theorem some_str_eq_std (v : Option Str) : someStr v = stdSafeStr v := by cases v <;> rfl
+
+/-- the module names the source tests `__module__` against (regenerated from the source on every run) are the ones
+    the model uses -/
+theorem source_plain_modules_agree : Gen.plainModNames = plainMods := by decide
+
+/-- the display name is the qualified name: two classes are printed alike only if their `__qualname__`s agree
+    up to the module prefix - in particular classes of one module with the same bare `__name__` but different
+    `__qualname__` (`Lexer.Error`, `Parser.Error`) are told apart -/
+theorem type_str_separates (m : Option Str) (q1 q2 : Str) (h : typeStr ⟨m, q1⟩ = typeStr ⟨m, q2⟩) : q1 = q2 := by
+  cases m with
+  | none => simpa [typeStr] using h
+  | some m =>
+    unfold typeStr at h
+    simp only at h
+    split at h
+    · exact h
+    · exact List.cons.inj (List.append_cancel_left h) |>.2
+
+/-- every capture of a session - whatever was captured before it, by whichever entry point - is reported as the
+    traceback module reports it: type name, exception-only text (final newline aside) and print_exception text -/
+theorem session_eq_std (caps : List Capture) :
+    (sessionB caps).map (fun r => (r.1, r.2.1 ++ ['\n'], r.2.2)) = sessionS caps := by
+  simp only [sessionB, sessionS, List.map_map]
+  apply List.map_congr_left
+  intro c _
+  simp only [Function.comp, type_str_eq_std, exc_only_eq_std]
+  simp [printExcOnly, stdExcOnly]
+
+/-- ... in particular the report of a capture does not depend on the captures before it -/
+theorem session_history_independent (pre : List Capture) (c : Capture) :
+    (sessionB (pre ++ [c])).getLast? = (sessionB [c]).getLast? := by
+  simp [sessionB]
+
+example : sessionB [(⟨some "bvm0".toList, "Lexer.Error".toList⟩, "a: b".toList),
+                    (⟨some "bvm0".toList, "Parser.Error".toList⟩, []),
+                    (⟨some "builtins".toList, "KeyError".toList⟩, "'k'".toList), (⟨none, "E".toList⟩, "x".toList)]
+    = [("bvm0.Lexer.Error".toList, "bvm0.Lexer.Error: a: b".toList, "bvm0.Lexer.Error: a: b\n".toList),
+       ("bvm0.Parser.Error".toList, "bvm0.Parser.Error".toList, "bvm0.Parser.Error\n".toList),
+       ("KeyError".toList, "KeyError: 'k'".toList, "KeyError: 'k'\n".toList),
+       ("<unknown>.E".toList, "<unknown>.E: x".toList, "<unknown>.E: x\n".toList)] := by decide +kernel
 
 def exTb : List TbEntry :=
   [⟨"/a b/é.py".toList, 3, "<module>".toList, 0, ⟨.pinned "top()\n".toList, none, none⟩⟩,
@@ -315,7 +516,6 @@ def exTb : List TbEntry :=
    ⟨"/p/plugin.py".toList, 6, "middle".toList, 1, ⟨.stamped 10 1 "old\n".toList, some (12, 2, "    return leaf(key)\n".toList), none⟩⟩,
    ⟨"<string>".toList, 1, "<module>".toList, 2, ⟨.absent, none, some "x\n".toList⟩⟩]
 
-example : (∀ e ∈ exTb, LookOK e.look = true) ∧
-    NoLongRun (stdExtract (exTb.map walkS) (resolveLimit none (some 3))) = true := by decide +kernel
+example : ∀ e ∈ exTb, LookOK e.look = true := by decide +kernel
 
 end C16
